@@ -843,6 +843,8 @@ impl E {
             // a float value is written as a real literal (Rust's Debug form: always with a fraction or an exponent)
             E::V(VS::F64(b)) if f64::from_bits(*b).is_finite() => format!("({:?})", f64::from_bits(*b)),
             E::V(VS::F32(b)) if f32::from_bits(*b).is_finite() => format!("({:?})", f32::from_bits(*b) as f64),
+            E::V(VS::Bytes(b)) => lex::enc_bytes(Dialect::Sqlite, b),
+            E::V(VS::Str(t)) => lex::enc_str(Dialect::Sqlite, t),
             E::V(_) => return None,
             E::Int(i) | E::Const(i) => format!("({i})"),
             E::Text(s) => lex::enc_str(Dialect::Sqlite, s),
